@@ -741,7 +741,7 @@ def clone(x):
 def gen_value(d: D, typ: str, c, kind: Optional[str] = None) -> str:
     """A user value for an option of type `typ`.  kind: valid | alt (differently spelled) | bad (malformed)."""
     if kind is None:
-        kind = d.weighted([(80, "valid"), (12, "alt"), (8, "bad")])
+        kind = d.weighted(c.get("value_kinds") or [(80, "valid"), (12, "alt"), (8, "bad")])
     if typ == "bool":
         if kind == "bad":
             return d.pick(("m", "yes", "1", ""))
